@@ -643,8 +643,29 @@ impl MsgSpec {
 
     /// builder with all ordinary attributes added (not yet sealed)
     pub fn builder<'a>(&self, m: &'a Materialised) -> Result<MessageBuilder<'a>, String> {
+        self.builder_observed(m, 0)
+    }
+
+    /// As `builder`; `observe` selects read-only calls made on the unfinished builder between the
+    /// additions (bit k of `observe` for the k-th attribute, cycled: byte_len(), build(),
+    /// clone().build() in turn). They must not change what is finally serialised.
+    pub fn builder_observed<'a>(&self, m: &'a Materialised, observe: u64) -> Result<MessageBuilder<'a>, String> {
         let mut b = Message::builder(self.lib_type(), TransactionId::from(self.tid));
-        for it in &m.items {
+        for (k, it) in m.items.iter().enumerate() {
+            if observe >> (k % 64) & 1 == 1 {
+                match k % 3 {
+                    0 => {
+                        let _ = b.byte_len();
+                    }
+                    1 => {
+                        let _ = b.build();
+                    }
+                    _ => {
+                        let _ = b.clone().build();
+                    }
+                }
+            }
+            let _ = k;
             match it {
                 Item::Typed(t) => b
                     .add_attribute(t.as_write())
@@ -759,9 +780,13 @@ pub fn method_strategy() -> BoxedStrategy<u16> {
 
 /// message specs; `huge_weight` in 0..=100 is the percentage of bodies filled to 65 400..=65 532 bytes
 pub fn msg_spec(seal: BoxedStrategy<Seal>, max_attrs: usize, huge_pct: u32) -> BoxedStrategy<MsgSpec> {
+    // size classes: mostly as generated; a share filled up to just around a power of two (where
+    // implementations switch buffers or representations); `huge_pct` filled to the 16-bit limit
+    let mid = (10u32..=15, 0u32..=48).prop_map(|(k, d)| Some(((1u32 << k) + d).saturating_sub(24)));
     let fill = prop_oneof![
-        (100 - huge_pct) => Just(None),
-        huge_pct => prop_oneof![
+        (100 - huge_pct) * 24 => Just(None),
+        (100 - huge_pct) => mid,
+        huge_pct * 25 => prop_oneof![
             3 => (65_400u32..=65_532).prop_map(Some),
             2 => Just(Some(65_532u32)),
             1 => (65_500u32..=65_532).prop_map(Some),
@@ -779,6 +804,18 @@ pub fn msg_spec(seal: BoxedStrategy<Seal>, max_attrs: usize, huge_pct: u32) -> B
         .prop_map(|(class, method, tid, attrs, fill_body_to, seal, creds)| {
             let mut attrs = dedup_types(attrs);
             attrs.retain(|a| !(0xC100..0xC200).contains(&a.ty()));
+            // about one message in 25 carries many small attributes (17..=48: past the inline
+            // capacity of small vectors and fixed tables of 16 or 32 entries)
+            if (tid ^ (method as u128)) % 25 == 0 {
+                let n = 17 + (tid >> 8) as usize % 32;
+                for k in 0..n {
+                    let ty = 0xC300 + k as u16;
+                    attrs.push(AttrSpec::Raw {
+                        ty,
+                        value: Hex(fill_bytes(((tid >> 16) as usize % 6 + k) % 6, k as u64 + 1, 3)),
+                    });
+                }
+            }
             MsgSpec {
                 class,
                 method,
@@ -822,6 +859,10 @@ pub enum Defect {
     CutTailFixLen(u16),
     /// append bytes after the message
     ExtraTail(Hex),
+    /// append `len` bytes after the message (lengths around and beyond 2^16, where 16-bit
+    /// arithmetic on buffer sizes wraps); when `tiled` they form one well-formed optional attribute,
+    /// so that a decoder which walks them finds nothing wrong
+    LongExtraTail { len: u32, tiled: bool },
     /// xor into byte 0 (top bits) or the cookie bytes 4..8
     HeaderXor { offset: u8, mask: u8 },
     /// overwrite the length field of attribute `index` (modulo count)
@@ -897,6 +938,22 @@ impl WireSpec {
                 refstun::set_len(&mut buf);
             }
             Defect::ExtraTail(h) => buf.extend_from_slice(&h.0),
+            Defect::LongExtraTail { len, tiled } => {
+                let len = (*len as usize).min(140_000);
+                if *tiled && len >= 4 {
+                    let l = len & !3;
+                    let mut left = l;
+                    let mut k = 0u16;
+                    while left >= 4 {
+                        let v = (left - 4).min(65_532);
+                        refstun::push_tlv(&mut buf, 0xC200 + k, &fill_bytes(v, k as u64 + 1, 3), 0);
+                        left -= 4 + v;
+                        k += 1;
+                    }
+                } else {
+                    buf.extend(fill_bytes(len, len as u64, 0));
+                }
+            }
             Defect::HeaderXor { offset, mask } => {
                 let o = if *offset == 0 { 0 } else { 4 + (*offset as usize - 1) % 4 };
                 buf[o] ^= mask;
@@ -963,6 +1020,8 @@ pub fn defect_strategy() -> BoxedStrategy<Defect> {
         3 => prop_oneof![1u16..=12, 1u16..=200].prop_map(Defect::CutTail),
         3 => prop_oneof![1u16..=3, 1u16..=12, 1u16..=60].prop_map(Defect::CutTailFixLen),
         3 => bytes_len(prop_oneof![1usize..=12, 1usize..=64]).prop_map(|v| Defect::ExtraTail(Hex(v))),
+        1 => (prop_oneof![3 => Just(65_536u32), 2 => 65_500u32..=65_600, 1 => Just(131_072u32), 1 => 65_536u32..=70_000, 1 => (0u32..64).prop_map(|k| 65_536 + 4 * k)], any::<bool>())
+            .prop_map(|(len, tiled)| Defect::LongExtraTail { len, tiled }),
         2 => (0u8..5, prop_oneof![Just(0x80u8), Just(0x40u8), Just(0xC0u8), 1u8..=255])
             .prop_map(|(offset, mask)| Defect::HeaderXor { offset, mask }),
         3 => (any::<u8>(), prop_oneof![0u16..=64, any::<u16>()]).prop_map(|(index, len)| Defect::AttrLen { index, len }),
